@@ -989,11 +989,64 @@ func ruleQ10(c *Ctx, rule string) {
 	c.check(nFn >= 5 && nCalls >= 10, rule, "instances", token.NoPos, fmt.Sprintf("%d pairwise comparison functions, %d calls to non-pairwise package functions (frozen minimum 5 / 10)", nFn, nCalls))
 }
 
+// Q11: nothing is carried from one element to the next. In the pairwise list comparisons (…LstEq) the verdict must
+// not depend on the order of the elements; a necessary condition visible in the code is that each loop carries only
+// its own index from one iteration to the next (the only loop-head phis are induction variables: start constant,
+// step +1). A "found" flag hoisted out of the outer loop makes an element without a partner inherit the previous
+// element's verdict.
+func ruleQ11(c *Ctx) {
+	n := 0
+	var keys []string
+	for k := range c.Prog.SFuncs {
+		keys = append(keys, k)
+	}
+	sort.Strings(keys)
+	for _, k := range keys {
+		fn := c.Prog.SFuncs[k]
+		if fn == nil || !strings.HasSuffix(fn.Name(), "LstEq") || pairedParams(fn) == 0 {
+			continue
+		}
+		for li, l := range naturalLoops(fn) {
+			for _, ins := range l.head.Instrs {
+				ph, ok := ins.(*ssa.Phi)
+				if !ok {
+					break
+				}
+				n++
+				// induction variable: every edge from inside the loop is phi + 1, every edge from outside a constant
+				ind := isIntType(ph.Type())
+				for i, pr := range l.head.Preds {
+					e := ph.Edges[i]
+					if l.body[pr] {
+						bo, ok := e.(*ssa.BinOp)
+						one, isK := int64(0), false
+						if ok {
+							one, isK = constIntOf(bo.Y)
+						}
+						if !ok || bo.Op != token.ADD || bo.X != ssa.Value(ph) || !isK || one != 1 {
+							ind = false
+						}
+					} else if _, isK := constIntOf(e); !isK {
+						ind = false
+					}
+				}
+				name := ph.Comment
+				if name == "" {
+					name = ph.Name()
+				}
+				c.check(ind, "Q11", fmt.Sprintf("%s:loop#%d:carried:%s", k, li+1, name), ph.Pos(), fmt.Sprintf("the only values a loop of %s carries from one element to the next are its own counters (%s is %s)", k, name, map[bool]string{true: "an induction variable", false: "NOT an induction variable: state flows between elements, the verdict depends on their order"}[ind]))
+			}
+		}
+	}
+	c.check(n >= 4, "Q11", "instances", token.NoPos, fmt.Sprintf("%d loop-carried values in the pairwise list comparisons (frozen minimum 4)", n))
+}
+
 func init() {
 	register(&PropDef{
 		ID: "C15",
 		Rules: []Rule{
 			{"Q10", "each side is looked at with its own coordinates: in the pairwise comparison functions (two runs of parameters with identical type sequences) no call to a non-pairwise function of the package receives values derived from both runs, so the second list is parsed in its own buffer at its own offset", func(c *Ctx) { ruleQ10(c, "Q10") }},
+			{"Q11", "nothing is carried from one element to the next: in the pairwise list comparisons (URIParamsLstEq, URIHdrsLstEq) every loop-head phi is an induction variable (constant start, step +1), so no per-element verdict survives into the next element's iteration — a necessary condition of independence from the order of parameters and headers", ruleQ11},
 			{"Q1", "out-parameter pairing: the k-th raw URI is parsed into local u_k, out-parameter k receives u_k, URICmp receives (&u1,raw1,&u2,raw2)", ruleQ1},
 			{"Q2", "URICmpShort's expression is invariant under swapping its two (uri,buffer) pairs modulo commutativity", ruleQ2},
 			{"Q3", "component -> comparator table: type/port ==, user/password bytes.Equal, host and parameter/header names and values CmpEq; URIParamResolve's six names under their own length cases via CmpEq; type flags distinct bits", ruleQ3},
